@@ -62,6 +62,7 @@ func (World) Assumptions(prop string) []string {
 	case "C13":
 		return append(common,
 			"compared: GetAll{Eligible,Waiting,Leaving}ValidatorsPublicKeys(epoch) of every live node, order included; recorded UpdateNodeLists results grouped by identical arguments; N direct shuffler calls with maps rebuilt in other insertion orders",
+			"shuffler instances with different call histories get the same arguments: the recorded arguments of an earlier epoch are recomputed by a fresh shuffler, by a veteran instance that first serves the newest epoch, and by the real shuffler of a live node (a node re-computing an older epoch after a newer one); all must equal the result recorded when the epoch was first computed. Calling a node's shuffler directly is side-effect free on the unchanged tree (every call recomputes its configuration from the epoch). A rollback through EpochStartPrepare of an older epoch is not driven: the coordinator derives the previous configuration from its currentEpoch, which never decreases, so such a delivery would contradict the 'consistent with the previous epoch' precondition",
 			"each node receives the peer miniblocks (one per shard) in its own order (knob permute_body), so shards enter its input maps in another order, and builds its genesis maps in its own shard order; the order of entries inside a miniblock is the same for all nodes (list order is input, not map construction: the low-rating leaving list of a shard follows the entry order of the body)")
 	case "C14":
 		return append(common,
